@@ -137,13 +137,20 @@ theorem foldArgs_names (t : PrecTable) (sp : Spacing) (orc : Oracle) : ∀ l : L
   | [] => by simp [foldArgs]
   | .mk n ann :: rest => by simp [foldArgs, foldArg, argName, foldArgs_names t sp orc rest]
 
+theorem foldArgs_plain (t : PrecTable) (sp : Spacing) (orc : Oracle) : ∀ l : List Arg,
+    (foldArgs t sp orc l).all argPlain = l.all argPlain
+  | [] => by simp [foldArgs]
+  | .mk n ann :: rest => by
+    cases ann <;> simp [foldArgs, foldArg, foldO, argPlain, foldArgs_plain t sp orc rest]
+
 theorem fold_params (t : PrecTable) (sp : Spacing) (orc : Oracle) (a : Arguments) :
     paramNames (foldArguments t sp orc a) = paramNames a := by
   obtain ⟨po, as, va, ko, kd, kw, ds⟩ := a
   simp only [foldArguments]
   cases va <;> cases ko <;> cases kd <;> cases kw <;> cases ds <;>
-    simp [paramNames, foldOptArg, foldArgs, foldOL, foldL]
-  rw [foldArgs_names, foldArgs_names]
+    simp only [paramNames, foldOptArg, foldArgs, foldOL, foldL]
+  rw [List.all_append, List.all_append, foldArgs_plain, foldArgs_plain, List.map_append, List.map_append,
+    foldArgs_names, foldArgs_names]
 
 
 theorem fold_nameOf_eq (t : PrecTable) (sp : Spacing) (orc : Oracle) (e : Expr) : nameOf (foldE t sp orc e) = nameOf e := by
@@ -332,11 +339,19 @@ theorem posArgs_names : ∀ l : List Arg, (ExprMap.mapArgs id mergePosonly l).ma
   | .mk n ann :: rest => by simp [ExprMap.mapArgs, ExprMap.mapArg, argName, posArgs_names rest]
 
 open PMV.Transforms in
+theorem posArgs_plain : ∀ l : List Arg, (ExprMap.mapArgs id mergePosonly l).all argPlain = l.all argPlain
+  | [] => by simp [ExprMap.mapArgs]
+  | .mk n ann :: rest => by
+    cases ann <;> simp [ExprMap.mapArgs, ExprMap.mapArg, ExprMap.mapO, argPlain, posArgs_plain rest]
+
+open PMV.Transforms in
 theorem pos_params (a : Arguments) : paramNames (ExprMap.mapArguments id mergePosonly a) = paramNames a := by
   obtain ⟨po, as, va, ko, kd, kw, ds⟩ := a
   simp only [ExprMap.mapArguments, mergePosonly]
   cases va <;> cases ko <;> cases kd <;> cases kw <;> cases ds <;>
-    simp [paramNames, ExprMap.mapOptArg, ExprMap.mapArgs, ExprMap.mapOL, ExprMap.mapL, posArgs_names]
+    simp only [paramNames, ExprMap.mapOptArg, ExprMap.mapArgs, ExprMap.mapOL, ExprMap.mapL, List.nil_append]
+  rw [List.all_append, List.all_append, posArgs_plain, posArgs_plain, List.map_append, List.map_append,
+    posArgs_names, posArgs_names]
 
 open PMV.Transforms in
 theorem pos_nameOf_eq (e : Expr) : nameOf (ExprMap.mapE id mergePosonly e) = nameOf e := by
